@@ -65,7 +65,7 @@ func (c *stateCtx) viewOf(n *chainx.Node, hist []*block.Block) (*chainView, erro
 			}
 		}
 	}
-	accs := []util.Uint160{n.Validator.ScriptHash(), n.Committee.ScriptHash()}
+	accs := []util.Uint160{n.Validator.ScriptHash(), n.Committee.ScriptHash(), nativehashes.OracleContract}
 	for i := 1; i <= 8; i++ {
 		accs = append(accs, chainx.Acc(i).ScriptHash())
 	}
@@ -100,6 +100,7 @@ func (c *stateCtx) fillPolicy(n *chainx.Node, cv *chainView) {
 			cv.Contracts[h] = true
 		}
 	}
+	c.fillExt(n, cv)
 }
 
 type phSpec struct {
